@@ -497,13 +497,17 @@ class ArrayBase(ParsableBase, MutableSequence, Serializable):
 
         attr.validate(self)
 
-    def _update_items_size(self, del_item=None, insert_item=None):
+    def _update_items_size(self, del_item=None, insert_item=None, del_items=(), insert_items=()):
         size_diff = 0
 
         if del_item is not None:
             size_diff -= self.param.get_item_size(del_item)
         if insert_item is not None:
             size_diff += self.param.get_item_size(insert_item)
+        for item in del_items:
+            size_diff -= self.param.get_item_size(item)
+        for item in insert_items:
+            size_diff += self.param.get_item_size(item)
 
         if self._items_size + size_diff < self.param.min_byte_num:
             raise NotEnoughData(self.param.min_byte_num)
@@ -524,12 +528,21 @@ class ArrayBase(ParsableBase, MutableSequence, Serializable):
         return self._items[index]
 
     def __delitem__(self, index):
-        self._update_items_size(del_item=self._items[index])
+        if isinstance(index, slice):
+            self._update_items_size(del_items=self._items[index])
+        else:
+            self._update_items_size(del_item=self._items[index])
 
         del self._items[index]
 
     def __setitem__(self, index, value):
-        self._update_items_size(del_item=self._items[index], insert_item=value)
+        if isinstance(index, slice):
+            value = list(value)
+            if index.step not in (None, 1) and len(value) != len(self._items[index]):
+                raise ValueError(value)
+            self._update_items_size(del_items=self._items[index], insert_items=value)
+        else:
+            self._update_items_size(del_item=self._items[index], insert_item=value)
         self._items[index] = value
 
     def __str__(self):
